@@ -6,8 +6,8 @@ CHECKS = {
  # id: (engine, category, technique, level text, level note, design ref)
  'C02': ('icmc', 'model_checking',
          'explicit-state BFS over IBTP block histories on the real executor in lock-step with a reference model',
-         'All block histories up to depth 4 (thorough 5) over 13-25 block kinds (requests/receipts with next/duplicate/future/zero/huge/unknown index on 4 ordered pairs incl. a service sending to itself, mixed packing, unrelated txs, direct calls of every public interchain-contract method by an outsider), audit off and on; after every block every receipt verdict, both-side counters, index records and delivery sets are compared with the model, and the real InterchainRouter (GetInterchainTxWrappers over the ledger of the replica) must hand each chain exactly its delivery set.',
-         'memkv for goleveldb; all proofs valid (C03 covers proofs); 3 service pairs', '5 C02'),
+         'All block histories up to depth 4 (thorough 5) over 13-25 block kinds (requests/receipts with next/duplicate/future/zero/huge/unknown index on 4 ordered pairs incl. a service sending to itself, mixed packing, unrelated txs, direct calls of every public interchain-contract method by an outsider), audit off and on; after every block every receipt verdict, both-side counters, index records and delivery sets are compared with the model, and the real InterchainRouter (GetInterchainTxWrappers over the ledger of the replica) must hand each chain exactly its delivery set and the timeout / group-rollback notifications the block lists. A further BFS (depth 3, thorough 4) uses a pair whose source service is registered as unordered (destination ordered).',
+         'memkv for goleveldb; all proofs valid (C03 covers proofs); a destination service registered as unordered waives the request order by design and is not explored', '5 C02'),
  'C04': ('icmc', 'model_checking',
          'explicit-state BFS over request/receipt/timeout block histories on the real executor against the protocol FSM',
          'All block histories up to depth 4 (thorough 6) of requests (T=0/1/2, available or blacklisting destination), receipts success/failure/rollback (also after a final state, also in the request/expiry block), empty blocks, reopen; stored status of every id and every receipt verdict compared with the FSM of the statement after each block.',
@@ -34,7 +34,7 @@ CHECKS = {
          'process death only (each durable write all-or-nothing, per-writer program order); memkv for goleveldb, real blockfile', '5 C11'),
  'C12': ('ledgermc', 'model_checking',
          'explicit-state BFS over block histories with rollback(t) on the real StateLedger against recorded reference states',
-         'All histories of <=5 (thorough <=7) blocks drawn from 18 block kinds with rollback to every target 0..head+1, repeated rollbacks, other continuations and reopen; after each rollback the store, getters, root chain and re-execution of the original suffix are compared with what was recorded when the target was committed; plus a 13-block history across the journal window.',
+         'All histories of <=5 (thorough <=7) blocks drawn from 18 block kinds with rollback to every target 0..head+1, repeated rollbacks, other continuations and reopen; after each rollback the store, getters, root chain and re-execution of the original suffix are compared with what was recorded when the target was committed; plus a 13-block history across the 10-block journal window continued by every combination of reopen, rollback to every height, a second rollback, a different continuation block and again a rollback to every height; the retained window is the bookkeeping of the harness (last 10 committed heights), never read back from the ledger.',
          'memkv stands in for goleveldb; small key/value universe incl. non-UTF-8 keys and empty values', '5 C12'),
  'C13': ('ledgermc', 'model_checking',
          'explicit-state BFS over StateLedger operation sequences against a map reference model',
@@ -58,7 +58,7 @@ CHECKS.update({
          'memkv for goleveldb; gas price 50000; EVM transactions not in the probe set', '5 C07'),
  'C17': ('probemc', 'model_checking',
          'exhaustive enumeration of the reflected dispatch surface x unauthorised callers x typed argument vectors x pre-states on the real executor, state compared before/after each call',
-         'All 572 methods reachable through the VM dispatcher (reflection over the real registry, incl. methods promoted from embedded stubs/managers) x callers {outsider, admin of another appchain, (node account), governance admin for internal entry points} x 6 (thorough 16) argument vectors built from ids existing in the pre-state x 2 (thorough 4) pre-states; internal entry points must FAIL, and no call outside the reviewed public list may change state beyond caller nonce/fee or produce delivery entries.',
+         'All 572 methods reachable through the VM dispatcher (reflection over the real registry, incl. methods promoted from embedded stubs/managers) x callers {outsider, admin of another appchain, (node account), governance admin for internal entry points} x 6 (thorough 16) argument vectors built from ids existing in the pre-state x 2 (thorough 4) pre-states; internal entry points must FAIL, and no call outside the reviewed public list may change state beyond caller nonce/fee or produce delivery entries. Cross-party part: own-object operations carrying other parties identifiers and own-admin operations tried by the other chain admin. Withdrawal part: 12 proposal-opening operations (appchains, services, roles, nodes, strategies, dapps; also a governance admin acting on an object owned by another account) x every other account calls WithdrawProposal: must fail and change nothing but the fee, and the submitter can still withdraw.',
          'classification tables c17Internal / c17Public are part of the trusted base (harness/checks/c17.go)', '5 C17'),
 })
 CHECKS.update({
@@ -74,7 +74,7 @@ CHECKS.update({
 CHECKS.update({
  'C05': ('icmc', 'model_checking',
          'explicit-state BFS over block histories of one-to-many groups on the real executor with the statement\'s invariants evaluated after every block',
-         'All block histories up to depth 4 (thorough 5) of child begins, success/failure/rollback receipts (duplicates, before begin, several per block) and empty blocks for three groups (2 children on 2 destination chains; first child refused by a blacklisting destination; 3 children with an unregistered destination), timeout 0 and 2: global SUCCESS only with all children succeeded; after a child failure or group timeout every status stays in the failure/rollback family; in the failing block the source chain is told about every begun child and each destination chain about its already-succeeded child.',
+         'All block histories up to depth 4 (thorough 5) of child begins, success/failure/rollback receipts (duplicates, before begin, several per block) and empty blocks for three groups (2 children on 2 destination chains; first child refused by a blacklisting destination; 3 children with an unregistered destination), timeout 0 and 2: global SUCCESS only with all children succeeded; after a child failure or group timeout every status stays in the failure/rollback family; in the failing block the source chain is told about every begun child and each destination chain about its already-succeeded child (judged on the lists of the block and on what the real router hands to each chain for that block). Also two groups of two source services of one chain on one world (depth 4, thorough 5), so that one group times out in the block in which the other fails.',
          'a failure receipt for a child that already reported success is treated as implementation-defined (model follows the implementation, then holds it to the invariants)', '5 C05'),
 })
 CHECKS.update({
@@ -92,8 +92,8 @@ CHECKS.update({
 CHECKS.update({
  'C16': ('govmc', 'model_checking',
          'explicit-state BFS (validated-by-construction abstraction key) over governance operations, IBTP probes and restarts on the real executor against declared lifecycle relations and a gating predicate on stored statuses',
-         'All histories up to depth 6 (thorough 7) of submit freeze/activate/logout on appchain A, service A:s1 and destination service B:s2, conclusion of the open proposal by approval or rejection, a second independent proposal (registration of a new service A:s4) pending across them, requests A:s1->B:s2, B:s2->A:s1 and A:s4->B:s2 before/during/after each transition, and node restarts; every observed status change must be an edge of the declared state machine for that trigger or a cascade of the owning appchain, forbidden is absorbing, refused operations change nothing, approved appchain freeze/logout leaves no service usable (checked after every step: a frozen or logged-out appchain has no usable service), and each request is accepted / begin-failed (status + source notified) / rejected without record according to the stored availability of source and destination. Also: a logout of the appchain submitted on top of its open freeze / activate proposal (pausing it) and concluded either way; a second BFS over the lifecycle of the role of a governance admin (freeze / activate / logout) and of a non-validating node (register / update / logout).',
-         'declared FSMs and availability sets transcribed into the harness; abstraction merges histories differing only in heights/nonces/ids/counters; rules are covered by C03', '5 C16'),
+         'All histories up to depth 6 (thorough 7) of submit freeze/activate/logout on appchain A, service A:s1 and destination service B:s2, conclusion of the open proposal by approval or rejection, a second independent proposal (registration of a new service A:s4) pending across them, requests A:s1->B:s2, B:s2->A:s1 and A:s4->B:s2 before/during/after each transition, and node restarts; every observed status change must be an edge of the declared state machine for that trigger or a cascade of the owning appchain, forbidden is absorbing, refused operations change nothing, approved appchain freeze/logout leaves no service usable (checked after every step: a frozen or logged-out appchain has no usable service), and each request is accepted / begin-failed (status + source notified) / rejected without record according to the stored availability of source and destination. Also: a logout of the appchain submitted on top of its open freeze / activate proposal (pausing it) and concluded either way; a second BFS over the lifecycle of the role of a governance admin (freeze / activate / logout) and of a non-validating node (register / update / logout); a third BFS over the validation rules of two chains (built-in rules of a fabric-type chain; built-in + deployed WASM rule): UpdateMasterRule to every rule, LogoutRule, the lifecycle of the appchain, approve / reject, restart, against the rule state machine (candidate, replaced master, cleared rules, paused appchain), at most one available rule per chain and exactly one when no update is open.',
+         'declared FSMs and availability sets transcribed into the harness; abstraction merges histories differing only in heights/nonces/ids/counters', '5 C16'),
 })
 CHECKS.update({
  'C01': ('detmc', 'model_checking',
